@@ -131,9 +131,13 @@ def build_body(case):
             return None
         hdrs.append((b"Content-Encoding", b"gzip"))
     elif fr == "gzip-multi":
-        a = D // 2
-        decoded = _det(D)
-        payload = _gz(decoded[:a]) + _gz(decoded[a:])
+        # k = 2..4 members.  Mostly *compressible* content, so that the wire size stays within the limit while the
+        # members only add up past it (each member alone is under the limit): the decoded total is what is bounded.
+        k = 2 + D % 3
+        decoded = _det(D) if D % 4 == 3 else (_det(48) * (D // 48 + 1))[:D]
+        step = -(-D // k) if D else 0
+        members = [decoded[i:i + step] for i in range(0, D, step)] if D else [b"", b""]
+        payload = b"".join(_gz(m) for m in members)
         hdrs.append((b"Content-Encoding", b"gzip"))
     else:
         raise ValueError(fr)
